@@ -209,6 +209,15 @@ Proof.
   rewrite Ht, pat_tokens_wilds. auto.
 Qed.
 
+(* the configured limit on the parameter count, for every string *)
+Theorem within_limit s n eh :
+  parseRoute mp mk s = Accept n eh -> n <= mp /\ n = tok_wilds (tokenize s).
+Proof.
+  intros H. destruct (accepted_tokens s n eh H) as (p & _ & Hw & Ht & Hn & _).
+  split; [|rewrite Ht, pat_tokens_wilds; exact Hn].
+  unfold wf_with in Hw. apply andb_true_iff in Hw. destruct Hw as [_ Hc]. apply Nat.leb_le in Hc. lia.
+Qed.
+
 End Limits.
 
 Theorem grammarb_iff mp mk s n eh : grammarb mp mk s = Some (n, eh) <-> in_grammar mp mk s n eh.
